@@ -55,15 +55,18 @@ ASSUMPTIONS = [
     "the reply compared is what the registry hands to its transport; a reply larger than the transport's datagram "
     "(or than the MAX_DGRAM_SIZE bytes rpyc's own clients read) is outside the model",
     "callbacks on_service_added / on_service_removed may raise; the registry logs and carries on (exercised)",
-    "the loop survives under the hypotheses of `work_total`: stored addresses re-encode (they were decoded from a "
-    "datagram of at most MAX_DGRAM_SIZE bytes, or are the transport's host text) and fewer than 2^32 servers share a name",
+    "`registry_never_dies` assumes: histories of fewer than 2^32 datagrams from the empty registry; each datagram a "
+    "genuine byte string as `_recv` returns it (at most MAX_DGRAM_SIZE bytes); the host text the transport reports is "
+    "something brine.dump accepts; iterating a frozenset yields members of it (`EnvOk`)",
 ]
 EXPLANATION = ("Theorems over all histories of datagrams (every byte string) and all clocks: a query answers exactly the "
                "entries stored under the upper-cased name whose refresh is not older than the pruning interval, by refresh "
                "time then registration order, and the table refines the abstract map (NAME, address) -> last refresh; "
-               "notifications are in bijection with membership changes; every datagram leaves the loop running, a "
-               "datagram that is not a well-formed command changes nothing, a well-formed one only the entries it names; "
-               "a silent TCP client costs at most the socket timeout.")
+               "notifications are in bijection with membership changes (per step and per history); every datagram of every "
+               "history leaves the loop running (whatever brine.load returns can be dumped again; a name gains at most "
+               "one server per datagram), a datagram that is not a well-formed command changes nothing at all, a "
+               "well-formed one only the entries it names; every TCP client is accepted whatever earlier clients did "
+               "and a silent one costs exactly the socket timeout.")
 
 
 def reg():
@@ -563,9 +566,9 @@ def datagram_corpus(ctx, r):
     pool = wellformed_pool(r)
     valid = c04.valid_encodings(r, ctx.budget(100, 1500))
     valid = [e for e in valid if len(e) <= 1600]
-    for _ in range(ctx.budget(5000, 120000)):
+    for _ in range(ctx.budget(8500, 120000)):
         out.append(c04.mutate(r, r.choice(pool)))
-    for _ in range(ctx.budget(2000, 60000)):
+    for _ in range(ctx.budget(3500, 60000)):
         out.append(c04.mutate(r, r.choice(valid)))
     for _ in range(ctx.budget(1500, 40000)):
         n = r.below(14) + 1
@@ -707,12 +710,17 @@ def correspondence(ctx):
                 c.signatures.add("%s:%s:%s:%d:%d" % (mode, br, "r" if rec["reply"] is not None else "-", min(len(rec["notes"]), 4),
                                                     min(nserv, 6)))
         if got != want:
-            k = first_difference(mode, pruning, fd_limit, events)
+            k = first_difference(mode, pruning, fd_limit, events) if len(c.disagreements) < 25 else None
             c.disagreements.append(dict(case=dict(kind="history", mode=mode, pruning_ms=pruning, fd_limit=fd_limit,
                                                   events=enc_events(cut_events(events, k) if k is not None else events)),
                                         impl=want[-600:], model=got[-600:], source=tag))
         elif len(c.samples) < 12 and (len(lines) < 12 or c.evaluations % 1013 < 25):
             c.samples.append(dict(mode=mode, events=enc_events(events)[:6], outcome=want[:300]))
+    c.extra["observations"] = [
+        "outside the statement (it is about the registry's answer, which is correct here) and assumed away: a reply is one "
+        "datagram / one recv(MAX_DGRAM_SIZE) on the client side; with about 76 or more servers under one name (reply > 1500 "
+        "bytes) rpyc's own UDPRegistryClient.discover / TCPRegistryClient.discover raise TypeError from brine.load of the "
+        "truncated reply, and above 65507 bytes UDPRegistryServer._send swallows EMSGSIZE so the query gets no answer"]
     c.extra["datagrams"] = n_dgrams
     c.extra["histories"] = len([x for x in cases if x[0] == "history"])
     c.extra["exhaustive_datagrams_up_to_1_byte"] = 257
@@ -803,12 +811,13 @@ class Reference:
         return [(0,) + k for k in gone]
 
     def query(self, name, now):
+        """(live entries as (refresh time, address) oldest refresh first, removals of the stale ones)"""
         name = name.upper()
         mine = sorted((v[0], v[1], k) for k, v in self.m.items() if k[0] == name)
         stale = [k for t, _s, k in mine if t < now - self.pruning]
         for k in stale:
             del self.m[k]
-        return tuple((k[1], k[2]) for t, _s, k in mine if t >= now - self.pruning), [(0,) + k for k in stale]
+        return [(t, (k[1], k[2])) for t, _s, k in mine if t >= now - self.pruning], [(0,) + k for k in stale]
 
     def table(self):
         return dict((k, v[0]) for k, v in self.m.items())
@@ -827,6 +836,7 @@ def oracle_history(mode, pruning, fd_limit, events, meaning):
     ref = Reference(pr)
     now = 0
     k = 0
+    snap = repr(())
     tcp_timeout = int(round(r.TCPRegistryServer.TIMEOUT * 1000))
     for e, m in zip(events, meaning):
         if e[0] == "t":
@@ -853,6 +863,8 @@ def oracle_history(mode, pruning, fd_limit, events, meaning):
                             "tcp-unreplied-sockets-exhaust-descriptors")
                 continue
         before = ref.table()
+        prev_snap, snap_now = snap, repr(rec["services"])
+        snap = snap_now
         reply = None
         if rec["reply"] is not None:
             try:
@@ -870,14 +882,25 @@ def oracle_history(mode, pruning, fd_limit, events, meaning):
                 return "event %d: unregister answered %r" % (k - 1, reply), "unregister-reply"
         elif m["kind"] == "query":
             ans, want = ref.query(m["name"], now)
-            if reply != ans:
-                return ("event %d: query %r at %d ms answered %r, the registrations say %r" % (k - 1, m["name"], now, reply, ans),
-                        "query-answer")
+            times = dict((a, t) for t, a in ans)
+            # exactly the live servers, oldest refresh first; the statement leaves the order among equal refresh times open
+            ok = (type(reply) is tuple and len(reply) == len(ans) and all(type(a) is tuple and a in times for a in reply)
+                  and len(set(reply)) == len(reply)
+                  and all(times[reply[i]] <= times[reply[i + 1]] for i in range(len(reply) - 1)))
+            if not ok:
+                return ("event %d: query %r at %d ms answered %r, the registrations (refresh time, server) say %r"
+                        % (k - 1, m["name"], now, reply, ans), "query-answer")
         else:
+            after = flat_table(rec["services"])
+            strict = ("a connection that sends nothing" if e[0] == "s"
+                      else strictly_malformed(mode, e[2] if e[0] == "d" else e[3]))
+            if strict:
+                # the statement's own classes of malformed datagram: nothing at all may change
+                if rec["notes"] or after != before or (prev_snap is not None and repr(rec["services"]) != prev_snap):
+                    return ("event %d: a datagram with %s from %s changed the registrations: %r -> %r, notifications %r"
+                            % (k - 1, strict, m.get("host"), before, after, rec["notes"]), "malformed-datagram-altered:" + strict)
             # anything else may touch only what it names: entries of its own host, and stale entries (which no
             # query would return) may be dropped
-            want = None
-            after = flat_table(rec["services"])
             for key, t in before.items():
                 if key[1] != m.get("host") and t >= now - pr and after.get(key) != t:
                     return ("event %d: a datagram from %s altered the live registration %r" % (k - 1, m.get("host"), key),
@@ -896,6 +919,46 @@ def oracle_history(mode, pruning, fd_limit, events, meaning):
         if m["kind"] != "other" and flat_table(rec["services"]) != ref.table():
             return ("event %d (%s): the table is %r, the registrations say %r" % (k - 1, m["kind"], flat_table(rec["services"]),
                                                                              ref.table()), "table:" + m["kind"])
+    return None
+
+
+def strictly_malformed(mode, data):
+    """the classes of malformed datagram the statement lists, judged with brine.load alone; None if the datagram
+    is in none of them (then only the weaker own-host rule is demanded)"""
+    r, b = reg(), brine()
+    if mode in ("udp", "tcp"):
+        data = data[:r.MAX_DGRAM_SIZE]
+    try:
+        v = b.load(data)
+    except BaseException:  # noqa
+        return "undecodable bytes"
+    if type(v) is frozenset:
+        return None
+    if type(v) in (str, bytes):
+        return "no (magic, command, args) triple"
+    if type(v) is not tuple or len(v) != 3:
+        return "no (magic, command, args) triple"
+    magic, cmd, args = v
+    if type(magic) is not str or magic != "RPYC":
+        return "wrong magic"
+    if type(cmd) is not str:
+        return "a non-text command"
+    if cmd.lower() not in ("query", "register", "unregister"):
+        return "an unknown command"
+    if type(args) is not tuple:
+        return None if type(args) in (frozenset, str, bytes) else "arguments that are not a sequence"
+    want = dict(query=1, register=2, unregister=1)[cmd.lower()]
+    if len(args) != want:
+        return "a wrong argument count"
+    if cmd.lower() == "query" and type(args[0]) is not str:
+        return "a wrong argument type"
+    if cmd.lower() == "register":
+        names = args[0]
+        if type(names) in (tuple, frozenset):
+            if any(type(x) is not str for x in names):
+                return "a wrong argument type"
+        elif type(names) is not str:
+            return "a wrong argument type"
     return None
 
 
